@@ -155,7 +155,9 @@ FinishApplyX(op, t) ==
 \* TRUE: the code after the fix of finding F20 / F24 (companion configurations override them)
 PJoinReq(op) == (ReqP(op.p) \ Cols(op.fixed)) \cup (IF op.res THEN op.common ELSE {})
 
-CommuteX(new, curNode) ==
+\* TRUE: the code after the fix of finding F26 (a companion configuration overrides it)
+FixF26 == TRUE
+CommuteXR(new, curNode) ==
     LET cur == curNode.op
         tc == Cols(curNode.t)
     IN IF new.o # "pjoin" THEN Commute(new, cur, tc)
@@ -167,6 +169,12 @@ CommuteX(new, curNode) ==
        ELSE IF ~(PJoinReq(new) \subseteq tc) THEN Refuse(cur)
        ELSE IF CountDep(cur) THEN Refuse(cur)
        ELSE Commutator(new, cur, TRUE)
+\* (fix of finding F26) a partial join whose common columns are not resolved yet resolves them against
+\* the relation it logically acts on - as _begin_apply does - before it asks whether it can move
+CommuteX(new, curNode) ==
+    IF FixF26 /\ new.o = "pjoin" /\ ~new.res
+    THEN CommuteXR([new EXCEPT !.common = {c \in Cols(curNode) \cap Cols(new.fixed) : IsKey(c)}, !.res = TRUE], curNode)
+    ELSE CommuteXR(new, curNode)
 
 (* ---------------- _begin_apply ---------------- *)
 \* [err] | [op |-> operation to apply, pref |-> engine]
